@@ -17,7 +17,7 @@ RULE = ('every bundled constructor whose field types are in {int, long, #, Bool,
         'parse back; BlockIdExt helpers on boundary values; distinct = distinct (constructor, emitted bytes)')
 ASSUMPTIONS = ['the schema-as-data reader (tlkit) is untrusted: TLC re-renders every constructor to its declaration text and recomputes the '
                'constructor id (CRC-32/IEEE of the declaration without ;()) itself', 'well-typed value: optional field present iff its flag bit '
-               'is set; int128/int256 as hex strings; # is an unsigned 32-bit natural; strings are ASCII; bytes values are not themselves boxed TL objects',
+               'is set; int128/int256 as hex strings; # is an unsigned 32-bit natural; text strings are UTF-8 (ASCII and multi-byte characters); bytes values are not themselves boxed TL objects',
                'library dicts are converted to the specification\'s value shape by tlkit.to_spec (glue); comparison is done by TLC']
 V_ENV = {}
 
@@ -104,6 +104,10 @@ def generate(tier, seed, ctx):
                 for n in ([0, 1, 3, 4, 253, 254, 255] if q else [0, 1, 2, 3, 4, 252, 253, 254, 255, 256, 257, 65536]):
                     if rng.random() < (0.35 if q else 1.0):
                         vals.append(g.ctor(name, hints={f['n']: n}))
+                if k == 'string' and rng.random() < (0.5 if q else 1.0):
+                    # multi-byte text at the 253/254-byte boundary and in the long form (characters != bytes)
+                    for txt in ('h\u00e9llo', '\u00e9' * 126 + 'a', '\u00e9' * 127, '\u20ac' * 100, '\U0001d11e' * 63 + 'ab'):
+                        vals.append(g.ctor(name, hints={f['n']: txt}))
             elif k == 'vector':
                 for n in (0, 1, 3):
                     vals.append(g.ctor(name, hints={f['n']: n}))
